@@ -1917,7 +1917,10 @@ processing of a request for string representation of the receiver.
 */
 func (r stack) assembleStringStack(str []string, ot string, oc stackType) string {
 	// Padding char (or lack thereof)
-	pad := padValue(!r.positive(nspad), "")
+	var pad string
+	if !r.positive(nspad) {
+		pad = string(rune(32))
+	}
 
 	builder := newStringBuilder()
 
